@@ -175,11 +175,12 @@ def run_folds(ctx, cell):
     elif f == "range":
         a = ctx.int("a", -3, 3)
         b = ctx.int("b", -3, 4)
-        env = {"a": vint(a), "b": vint(b)}
-        text = "[range(a, b), range(b), range(a, b, 2), range(b, a, -1)]"
+        st = (-3, -2, 3, -1)[ctx.choice("st", 4)]
+        env = {"a": vint(a), "b": vint(b), "st": vint(st)}
+        text = "[range(a, b), range(b), range(a, b, 2), range(b, a, -1), range(a, b, step = st), range(b, a, step = st)]"
         ia, ib = int(a), int(b)
         exp = vlist([ilist(list(range(ia, ib))), ilist(list(range(ib))), ilist(list(range(ia, ib, 2))),
-                     ilist(list(range(ib, ia, -1)))])
+                     ilist(list(range(ib, ia, -1))), ilist(list(range(ia, ib, st))), ilist(list(range(ib, ia, st)))])
     elif f == "interval":
         a = ctx.int("a", -3, 3)
         b = ctx.int("b", -3, 4)
